@@ -150,6 +150,9 @@ func x01Run(c *ctx, op string, classes [][]int, viaLayers bool) {
 			g := x01Geom(c, op, k)
 			f := geojson.NewFeature(g)
 			f.ID = len(tags) + 1
+			if c.rng.Intn(3) == 0 { // a bbox member that says nothing true about the geometry (stale, or in other units)
+				f.BBox = geojson.BBox{1, 1, 2, 2}
+			}
 			tags[f] = len(tags) + 1
 			l.Features = append(l.Features, f)
 			x := x01Feat{Tag: tags[f], G: lg.id(g), Dim: -1}
